@@ -155,6 +155,20 @@ def run(ctx, case):
             m.write(config, no_sample_default=b"02")   # the documented option for objects without a known sample
         except Exception:
             pass
+    if ctx.cur_k is not None and ctx.cur_k % 4 == 0:
+        # the caller's own layout dict (a copy of the shipped one), written with, then two lanes swapped in that same dict
+        # and written again: each file must follow the layout as it is when passed
+        try:
+            own = dict(config)
+            m.write(own)
+            lane_keys = [k for k, v in own.items() if isinstance(v, int)]
+            if len(lane_keys) >= 2:
+                a, b = lane_keys[0], lane_keys[-1]
+                own[a], own[b] = own[b], own[a]
+                m.write(own)
+                ctx.state("c05.layout_edited_in_place", True)
+        except Exception:
+            pass
     if case["cls"] == "write_edit_write":
         # the same chart object, tempo doubled in place (times halved), written again
         try:
